@@ -88,7 +88,7 @@ def handmade():
     ]
 
 
-def run_ledger(c, pid, behs, nshards=6, validators=2, gomaxprocs=None, timeout=1800, tag="L"):
+def run_ledger(c, pid, behs, nshards=6, validators=2, gomaxprocs=None, timeout=1800, tag="L", blocks_out=False, blocks_in=None):
     inp = dict(templates=templates(), behaviours=behs, regimes=REGIMES, validators=validators)
     inpath = os.path.join(c.work, "ledger_in_%s.json" % tag)
     json.dump(inp, open(inpath, "w"))
@@ -99,6 +99,10 @@ def run_ledger(c, pid, behs, nshards=6, validators=2, gomaxprocs=None, timeout=1
         e = {"VERIF_IN": inpath, "VERIF_OUT": outs[i], "VERIF_TRACE": traces[i], "VERIF_SEED": c.seed, "VERIF_TIER": c.tier}
         if gomaxprocs:
             e["GOMAXPROCS"] = gomaxprocs
+        if blocks_out:
+            e["VERIF_BLOCKS_OUT"] = os.path.join(c.work, "ledger_blocks_%s_%d.json" % (tag, i))
+        if blocks_in:
+            e["VERIF_BLOCKS_IN"] = os.path.join(c.work, "ledger_blocks_%s_%d.json" % (blocks_in, i))
         return e
     rs = vlib.go_test_sharded("./internal/verifnode/", "^TestVerifLedger$", nshards, env, timeout=timeout)
     digests = {}
